@@ -878,3 +878,27 @@ Proof.
   - intros. apply gamma_interval_prob; assumption.
   - intros. apply invgamma_interval_prob; assumption.
 Qed.
+
+(* the distribution function of the draw, x |-> P(g(U) <= x) = Fb(ginv x) for increasing g (1 - Fb(ginv x) for decreasing g),
+   is differentiable on the support with the documented pdf as derivative *)
+Theorem pushes_cdf_increasing (supp_b supp : R -> Prop) (g ginv dginv base pdf Fb : R -> R) x :
+  pushes supp_b supp g ginv dginv base pdf -> (forall x, supp x -> 0 < dginv x) ->
+  (forall u, supp_b u -> is_derive Fb u (base u)) -> supp x ->
+  is_derive (fun t => Fb (ginv t)) x (pdf x).
+Proof.
+  intros [_ [H2 _]] Hpos HFb Hx. destruct (H2 x Hx) as [A [_ [D [_ E]]]].
+  rewrite Rabs_pos_eq in E by (left; apply Hpos, Hx).
+  evar_last; [apply (is_derive_comp Fb ginv x _ _ (HFb _ A) D)|]. unfold scal; simpl; unfold mult; simpl. rewrite <- E. ring.
+Qed.
+
+Theorem pushes_cdf_decreasing (supp_b supp : R -> Prop) (g ginv dginv base pdf Fb : R -> R) x :
+  pushes supp_b supp g ginv dginv base pdf -> (forall x, supp x -> dginv x < 0) ->
+  (forall u, supp_b u -> is_derive Fb u (base u)) -> supp x ->
+  is_derive (fun t => 1 - Fb (ginv t)) x (pdf x).
+Proof.
+  intros [_ [H2 _]] Hneg HFb Hx. destruct (H2 x Hx) as [A [_ [D [_ E]]]].
+  rewrite Rabs_left in E by (apply Hneg, Hx).
+  evar_last; [apply (is_derive_minus (fun _ => 1) (fun t => Fb (ginv t)) x _ _ (is_derive_const 1 x)
+                       (is_derive_comp Fb ginv x _ _ (HFb _ A) D))|].
+  unfold minus, plus, opp, zero, scal; simpl; unfold mult; simpl. rewrite <- E. ring.
+Qed.
